@@ -55,6 +55,8 @@ def r021_r022(model, rep, names=None, rule_api='R02.1', rule_eq='R02.2'):
         rep.ob(rule_eq, fi, name + ' == reference', okv,
                ('differs from modern_robotics.%s (reference line %d): %s' % (name, r['ref_line'], r['detail'][:400])) if not okv
                else ('token-identical' if r.get('token_identical') else 'equal normal forms'))
+    n_h = helper_axioms(model, rep, rule_eq)
+    rep.count('%s: named helpers compared with the definition the rewrite rules assume' % rule_eq, n_h)
     return results
 
 
@@ -159,6 +161,94 @@ def check(model, rep):
                                  for n, r in sorted(results.items())}
 
 
+HELPER_SPECS = {
+    # the helpers the rewrite rules N1 / N2 / N4 / N7 are named after, with the meaning those rules assume
+    'Norm': ('N1: Norm(v) is the Euclidean norm of a 3-vector', """
+        def Norm(v):
+            return np.sqrt(v[0] * v[0] + v[1] * v[1] + v[2] * v[2])
+        """, """
+        def Norm(v):
+            return np.linalg.norm(v)
+        """),
+    'SafeTrace': ('N7: SafeTrace(R) is the trace of a square matrix', """
+        def SafeTrace(R):
+            sz = R.shape
+            if sz[0] == sz[1]:
+                sum = 0
+                for i in range(sz[0]):
+                    sum = sum + R[i, i]
+                return sum
+            return -1
+        """, """
+        def SafeTrace(R):
+            return np.trace(R)
+        """),
+    'SafeCopy': ('N2: SafeCopy(a) is an element-wise copy of a 2-D array', """
+        def SafeCopy(arr):
+            s = arr.shape
+            newarr = np.zeros((s))
+            for i in range(s[0]):
+                for j in range(s[1]):
+                    newarr[i, j] = arr[i, j]
+            return newarr
+        """, """
+        def SafeCopy(arr):
+            return np.copy(arr)
+        """, """
+        def SafeCopy(arr):
+            return arr.copy()
+        """),
+    'SafeDot': ('N4: SafeDot(A, B) is the matrix product', """
+        def SafeDot(A, B):
+            return A @ B
+        """, """
+        def SafeDot(A, B):
+            return np.dot(A, B)
+        """),
+    'MatMul': ('N4: MatMul(A, B) is the matrix product', """
+        def MatMul(A, B):
+            return A @ B
+        """, """
+        def MatMul(A, B):
+            return np.dot(A, B)
+        """),
+    'SafeClip': ('SafeClip(x, lo, hi) clamps x to [lo, hi]', """
+        def SafeClip(x, mn, mx):
+            return min(mx, max(x, mn))
+        """, """
+        def SafeClip(x, mn, mx):
+            return max(mn, min(x, mx))
+        """),
+}
+
+
+def helper_axioms(model, rep, rule):
+    """The rewrite rules read calls of a few port helpers as NumPy operations by NAME (Norm = linalg.norm, SafeTrace = trace, SafeCopy = copy,
+    SafeDot / MatMul = @).  That reading is only valid while the helpers are what their names say: each is compared, by normal form, with
+    the definition the rule assumes.  -> number of helpers compared"""
+    pm = model.module(PORT)
+    n = 0
+    for name, spec_t in sorted(HELPER_SPECS.items()):
+        what, specs = spec_t[0], spec_t[1:]
+        fi = pm.funcs.get(name)
+        if fi is None:
+            continue                       # a helper that is gone cannot be called: nothing is read through it
+        n += 1
+        ok, why = False, ''
+        for spec in specs:                 # the definition in the repository, or an equivalent library call
+            try:
+                ok, w_ = tv.matches_spec(model, PORT, name, spec)
+            except Exception as ex:  # noqa
+                ok, w_ = False, 'not normalisable: %s' % ex
+            why = why or w_
+            if ok:
+                break
+        rep.ob(rule, fi, '%s has the meaning the rewrite rules assume' % name, ok,
+               '%s - but the helper differs from that definition (%s): every primitive that calls it (MatrixLog3 / MatrixLog6 through SafeTrace, '
+               'the exponentials and logarithms through Norm, ...) no longer computes what the reference computes' % (what, why[:200]))
+    return n
+
+
 def closure_obligations(model, rep, rule, callers, what):
     """E6 verdicts scoped to a property: every reference-shared primitive in the transitive callee closure of the kernels
     that `callers` (FuncInfos of the property's anchor code) use must equal the pinned reference."""
@@ -178,4 +268,5 @@ def closure_obligations(model, rep, rule, callers, what):
         rep.ob(rule, fi, name + ' == reference', ok,
                ('%s, which %s relies on, differs from modern_robotics.%s: %s' % (name, what, name, r['detail'][:300])) if not ok else 'equal normal forms')
     rep.count('%s: primitives in the callee closure shared with the reference' % rule, len(shared))
+    helper_axioms(model, rep, rule)
     return shared
